@@ -4,11 +4,26 @@ import json, os
 ROOT = os.path.dirname(os.path.dirname(os.path.abspath(__file__)))
 BASE = 'cd /repo && /venv/bin/python -m pytest -ra -q -p no:cacheprovider --timeout=900 --continue-on-collection-errors'
 
+COMMON_NOTE = ('Trusted: CrossHair 0.0.110 library models + documented driver patches (ASCII strings, exact-real amounts where stated), '
+               'z3 5.1.0, ast.parse literal->Constant for AST-constant injection. Bounds and stubs are listed per obligation in the evidence.')
+LEVEL_TEXT = ('Bounded proof per obligation: the real functions are executed symbolically (CrossHair + z3) and every path inside the stated '
+              'bounds is explored; the solver finds no input violating the assertion (status CONFIRMED, with a refuted reachability twin) or '
+              'returns a counterexample that is replayed on the unpatched code in a fresh interpreter before VIOLATION is printed. '
+              'Obligations that time out are reported as inconclusive, never as discharged.')
 CLAIMED = {
-    # id: (technique, level text, level note, design ref)
-    'C01': ('bounded symbolic execution of MerchantEngine.match/normalize_merchant (CrossHair+z3) against a first-match oracle; truth-vector abstraction + AST-constant injection',
-            'Bounded proof per obligation: every path of the real matching code within the stated bounds is explored and the solver finds no input on which the result differs from an independent first-match oracle; counterexamples are replayed on the unpatched code.',
-            'Bounds: <=4 rules, description <=4 ASCII chars, constants <=2 chars. Trusted: CrossHair library models, z3, ast.parse literal->Constant.', 'DESIGN.md section 2 C01'),
+    'C01': ('bounded symbolic execution (CrossHair+z3) of MerchantEngine.match / normalize_merchant vs a first-match oracle; truth-vector abstraction + AST-constant injection',
+            LEVEL_TEXT, 'Bounds: <=3 rules (4 thorough), description <=2-3 ASCII chars, constants <=1-2 chars, integer amounts. ' + COMMON_NOTE, 'DESIGN.md section 2 C01'),
+    'C02': ('bounded symbolic execution (CrossHair+z3) of MerchantEngine.match in both modes and of the legacy loop vs a tag-union oracle; neutrality of tag-only rules by differential runs inside one path',
+            LEVEL_TEXT, 'Bounds: <=3 rules (4 thorough); dynamic-tag text over a 3-letter alphabet (tag sets hash their members). ' + COMMON_NOTE, 'DESIGN.md section 2 C02'),
+    'C04': ('bounded symbolic execution (CrossHair+z3) of tally\'s parser+evaluator vs an independent reference interpreter, plus metamorphic laws, per expression shape with symbolic leaves',
+            LEVEL_TEXT, 'Bounds: ~80 shapes (quick) / ~200 (thorough); description <=2-3, string leaves <=1-2 ASCII chars; patterns of regex functions concrete; fuzzy() outside. ' + COMMON_NOTE, 'DESIGN.md section 2 C04'),
+    'C06': ('SMT encoding (z3, IEEE doubles) of classification.py generated from source vs a bucket specification; CrossHair inductive-step obligations on analyze_transactions with exact-real amounts',
+            LEVEL_TEXT, 'Bounds: all doubles x <=3 tags x <=10 chars for the bucket functions; accumulation over enumerated base lists with 1-2 symbolic transactions; float rounding of sums outside. ' + COMMON_NOTE, 'DESIGN.md section 2 C06'),
+    'C09': ('bounded symbolic execution (CrossHair+z3) of MerchantEngine.match(most_specific) with symbolic truth vector, priorities and specificity components vs a lexicographic ranking oracle; all permutations inside one path',
+            LEVEL_TEXT, 'Bounds: <=3 rules (4 thorough); specificity components unbounded non-negative ints (stubbed calculate_specificity) or read from a 15-member expression family. ' + COMMON_NOTE, 'DESIGN.md section 2 C09'),
+    'C13': ('translation validation: Python AST and JS ESTree (acorn) of the classification functions translated to z3 (Float64, bounded ASCII tag lists) on every run; one equivalence query per output; cross-checked with z3 4.8.12 and cvc5',
+            'Equivalence of the two programs for every double and every tag list within the bounds (unsat of the difference query); vacuity guard per bucket; models replayed on the real Python function and the real JS under node.',
+            'Bounds: null or <=3 tags (4 thorough) of <=10 (12) ASCII chars. Trusted: engine/smt/symexec.py (validated against concrete runs of both real programs on every run), acorn, z3. If the source leaves the translator subset the check reports a harness error unless a fixed differential grid finds a replayable disagreement.', 'DESIGN.md section 2 C13'),
 }
 NOT_APPLICABLE = {}
 
